@@ -1202,7 +1202,8 @@ def selftest(which, seed):
     vlib.build()
     if which == "determinism":
         fams = [("c11", 200), ("c12", 200), ("c13", 100), ("c16", 100), ("c17", 150), ("c14", 100), ("c15p", 150), ("c15e", 150), ("c20", 150),
-                ("c17b", 150), ("c19b", 100), ("c32", 100), ("c33", 100), ("c10", 100), ("c18", 100), ("c04", 100), ("vec", 150), ("lsh", 200)]
+                ("c17b", 150), ("c19b", 100), ("c32", 100), ("c33", 100), ("c10", 100), ("c18", 100), ("c04", 100), ("vec", 150), ("lsh", 200),
+                ("c19a", 150), ("c19w", 60), ("c20h", 150), ("c20hw", 100)]
         bad = 0
         total = 0
         for fam, n in fams:
